@@ -1515,6 +1515,7 @@ func main() {
 		chk.Finish()
 	}
 	runQRBitstream()
+	runQRLongSegments()
 	runDMBitstream()
 	runAztecHighLevel()
 	runMatrices()
